@@ -344,10 +344,14 @@ def run_alltuples(u, out):
         out['samples'].append({'all_tuples': True, 'op': opn, 'D': D, 'pairs': int(X.shape[2]), 'one_pair': [X[:, 0, 7].tolist(), Y[:, 0, 7].tolist()]})
 
 
+# every exponent up to 20 (all bit patterns of 4 bits and some of 5: square-and-multiply schemes), a few larger ones
+POW_EXPONENTS = list(range(0, 21)) + [24, 31, 32, 33] + list(range(-1, -9, -1))
+
+
 def run_pow(u, out):
     ek = u['ekind']
     conv = {'int': int, 'float': float, 'np.int64': np.int64, 'np.float64': np.float64, 'np.float32': np.float32}[ek]
-    for k in [0, 1, 2, 3, 4, -1, -2]:
+    for k in POW_EXPONENTS:
         for (D, P) in DPS[u['tier']]:
             for shape in [(), (2,), (2, 3)]:
                 for cplx in (False, True):
